@@ -27,6 +27,7 @@ type caseC03 struct {
 	ZeroRcv bool    `json:"zero_receiver,omitempty"` // the receiver is a zero-value struct (new(Element)) instead of Prior
 	Pre     int     `json:"pre,omitempty"`           // the input is a sub-slice starting at this offset of a larger buffer
 	Pad     int     `json:"pad,omitempty"`           // this many zero bytes are appended to the input (very long inputs)
+	Tail    bool    `json:"tail,omitempty"`          // with Pre: the input ends exactly at the end of its heap allocation
 }
 
 var (
@@ -260,6 +261,7 @@ var c03 = gen.Register(&gen.Check[caseC03]{
 		c.ZeroRcv = gen.Chance(t, "zeroRcv", 1, 6)
 		if len(data) > 0 && c.Decoder != "coordinates" && gen.Chance(t, "interior", 1, 3) {
 			c.Pre = rapid.IntRange(1, 15).Draw(t, "pre")
+			c.Tail = gen.Chance(t, "tail", 1, 3)
 		}
 		return c
 	},
@@ -351,7 +353,12 @@ func c03Once(c caseC03, o *gen.Obs) error {
 		o.Class("very-long-input")
 	}
 	if c.Pre > 0 && c.Decoder != "hex" {
-		data, _ = gen.Place(data, gen.Layout{Pre: c.Pre, Post: 3})
+		lay := gen.Layout{Pre: c.Pre, Post: 3, Fill: c.Pre % gen.NumFills}
+		if c.Tail {
+			lay.Tail, lay.Post = true, 0
+			o.Class("input-at-allocation-tail")
+		}
+		data, _ = gen.Place(data, lay)
 		o.Class("input-interior")
 	}
 	if c.Nil {
